@@ -36,7 +36,7 @@ fn main() {
         "judge" => {
             let cases = tok::read_cases(io::stdin().lock());
             for c in &cases {
-                let fails = match prop { "C20" => c20::judge(c, &c.outs), _ => vec![] };
+                let fails = match prop { "C20" => c20::judge(c, &c.outs), "C04" => c04::judge(c, &c.outs), _ => vec![] };
                 for f in fails { writeln!(w, "{}", f).unwrap(); }
             }
         }
